@@ -61,5 +61,21 @@ func runC02(tier string, seed uint64, o *Out) error {
 			return err
 		}
 	}
+	// session windows: late rows absorbed by the still-open triggered session of their key
+	cross := []wop{{kind: 'A', id: 1, ts: 1000, key: "1"}, {kind: 'A', id: 2, ts: 1005, key: "2"}, {kind: 'A', id: 3, ts: 1100, key: "3"}, {kind: 'X'},
+		{kind: 'A', id: 4, ts: 1003, key: "2"}, {kind: 'A', id: 5, ts: 1002, key: "1"}, {kind: 'X'}}
+	if err := sessionLine(o, "C02", nwCfg{10, 0, 500}, cross, "corpus"); err != nil {
+		return err
+	}
+	for i := 0; i < ncases/2; i++ {
+		c := nwCfg{timeout: []int64{2, 10, 1000}[rng.Intn(3)]}
+		c.ooo = []int64{0, c.timeout / 2, 2 * c.timeout}[rng.Intn(3)]
+		c.late = []int64{0, c.timeout, 5 * c.timeout}[rng.Intn(3)]
+		n := 5 + rng.Intn(36)
+		ops := genSessionOps(rng, c, n, 1+rng.Intn(3), rng.Intn(3) == 0)
+		if err := sessionLine(o, "C02", c, ops, fmt.Sprintf("session late=%d", c.late/c.timeout)); err != nil {
+			return err
+		}
+	}
 	return nil
 }
